@@ -192,7 +192,12 @@ def main():
         elif s["diff"]:
             model_bad.append(s)
 
-    harness_err = [s for s in oracle_bad if any(f["clause"] == "harness-error" for f in s["oracle"])]
+    # an adapter crash AFTER the oracle has already failed in the same case is a consequence of the broken state (the
+    # failure stands, the crash is dropped); a crash with nothing found before it is a harness defect
+    for s in oracle_bad:
+        if s["oracle"][0]["clause"] != "harness-error":
+            s["oracle"] = [f for f in s["oracle"] if f["clause"] != "harness-error"]
+    harness_err = [s for s in oracle_bad if s["oracle"][0]["clause"] == "harness-error"]
     if harness_err:
         print("harness-error: " + harness_err[0]["oracle"][0]["detail"])
         return 2
